@@ -10,6 +10,7 @@
 -/
 import YtkProofs.Overlay
 import YtkProofs.OverlayRel
+import YtkProofs.MergeRel
 import YtkModel.Codec
 
 namespace Ytk.C06
@@ -245,6 +246,33 @@ theorem merged_spec (o : ListStrategy) (s : Overlay) :
     merged o s = s.foldl (fun acc p => mergeC o acc p.2) [] := by
   simp [merged, mergeAll, mergeC, List.foldl_map]
 
+/-- one Merge with arbitrary Go map order at EVERY depth (`MergeContRel`, YtkProofs/MergeRel.lean:
+    the copy loop over c1's children, the fold loop over c2's children and every nested
+    `mergeContainers` reached through a common key or, via `mergeListsMeld`, a common list index
+    may each range in any permutation): on well-formed documents every run returns the model's
+    `mergeC` — the deep version of C04's `merge_order_independent` -/
+theorem merge_deep_order_independent (o : ListStrategy) (a b r : AMap Node) (ha : (Node.cont a).WF)
+    (hb : (Node.cont b).WF) (h : MergeContRel o a b r) : r = mergeC o a b :=
+  mergeContRel_det h ha hb
+
+/-- the merged view does not depend on the order in which any layer's children (at any depth)
+    are visited: every run of `mergeOverlay` with free map order (`MergedRel`: layers in creation
+    order, each `mergeContainers` a `MergeContRel`) returns `merged o s` -/
+theorem merged_order_independent (o : ListStrategy) (s : Overlay) (hw : ∀ q ∈ s, (Node.cont q.2).WF)
+    (r : AMap Node) (h : MergedRel o [] (s.map (·.2)) r) : r = merged o s := by
+  refine mergedRel_det h (.cont .nil (fun _ hp => by cases hp)) ?_
+  intro c hc
+  obtain ⟨q, hq, rfl⟩ := List.mem_map.mp hc
+  exact hw q hq
+
+/-- the executable model is one of these runs -/
+theorem merged_is_rel (o : ListStrategy) (s : Overlay) (hw : ∀ q ∈ s, (Node.cont q.2).WF) :
+    MergedRel o [] (s.map (·.2)) (merged o s) := by
+  refine mergedRel_self o _ [] (.cont .nil (fun _ hp => by cases hp)) ?_
+  intro c hc
+  obtain ⟨q, hq, rfl⟩ := List.mem_map.mp hc
+  exact hw q hq
+
 /-- serialising the overlay serialises the (default-strategy) merged view -/
 theorem serialize_spec {β : Type} (enc : AMap Node → β) (s : Overlay) :
     Overlay.serialize enc s = enc (merged .meld s) := rfl
@@ -371,5 +399,41 @@ theorem search_rel_dotted_key_counterexample :
     have e : ((AMap.ofList [("a.b", (⟨"int", "1"⟩ : Scalar)), ("a.b", ⟨"int", "2"⟩)]).filter fun p => isTwo p.2).map (·.1) = ["a.b"] := by
       decide +kernel
     rwa [e] at this
+
+def exM : Overlay :=
+  [("base", [("a", i "1"), ("m", .cont [("x", i "1"), ("y", i "2")])]),
+   ("top", [("a", Node.null), ("m", .cont [("y", i "3"), ("z", i "4")])])]
+
+def exMerged : AMap Node := [("a", i "1"), ("m", .cont [("x", i "1"), ("y", i "3"), ("z", i "4")])]
+
+/-- a merge run that takes the REVERSE key order in every range (copy loop, fold loop, nested
+    container) arrives at the model's merged view -/
+theorem nonvacuous_merged_rel :
+    (∀ q ∈ exM, (Node.cont q.2).WF) ∧ merged .meld exM = exMerged ∧
+      MergedRel .meld [] (exM.map (·.2)) exMerged := by
+  refine ⟨?_, by decide +kernel, ?_⟩
+  · intro q hq
+    simp only [exM, List.mem_cons, List.not_mem_nil, or_false] at hq
+    rcases hq with rfl | rfl <;> exact wf_of_wfb _ (by decide +kernel)
+  · refine .cons (acc' := [("a", i "1"), ("m", .cont [("x", i "1"), ("y", i "2")])]) ?_ (.cons ?_ (.nil _))
+    · exact MergeContRel.mk_eq (a' := []) (b' := [("m", .cont [("x", i "1"), ("y", i "2")]), ("a", i "1")])
+        (List.Perm.refl _) (List.Perm.swap _ _ _) (a₀ := []) (by decide +kernel)
+        (.fresh_eq (a₂ := [("m", .cont [("x", i "1"), ("y", i "2")])]) (by decide +kernel) (by decide +kernel)
+          (.fresh_eq (a₂ := [("a", i "1"), ("m", .cont [("x", i "1"), ("y", i "2")])]) (by decide +kernel)
+            (by decide +kernel) (.nil_eq rfl)))
+    · exact MergeContRel.mk_eq (a' := [("m", .cont [("x", i "1"), ("y", i "2")]), ("a", i "1")])
+        (b' := [("m", .cont [("y", i "3"), ("z", i "4")]), ("a", Node.null)])
+        (List.Perm.swap _ _ _) (List.Perm.swap _ _ _)
+        (a₀ := [("a", i "1"), ("m", .cont [("x", i "1"), ("y", i "2")])]) (by decide +kernel)
+        (.both_eq (n := .cont [("x", i "1"), ("y", i "2")]) (x := .cont [("x", i "1"), ("y", i "3"), ("z", i "4")])
+          (a₂ := exMerged) (by decide +kernel)
+          (.cont (MergeContRel.mk_eq (a' := [("y", i "2"), ("x", i "1")]) (b' := [("z", i "4"), ("y", i "3")])
+            (List.Perm.swap _ _ _) (List.Perm.swap _ _ _) (a₀ := [("x", i "1"), ("y", i "2")]) (by decide +kernel)
+            (.fresh_eq (a₂ := [("x", i "1"), ("y", i "2"), ("z", i "4")]) (by decide +kernel) (by decide +kernel)
+              (.both_eq (n := i "2") (x := coalesce (i "2") (i "3")) (a₂ := [("x", i "1"), ("y", i "3"), ("z", i "4")])
+                (by decide +kernel) (.other (by decide) (by decide)) (by decide +kernel) (.nil_eq rfl)))))
+          (by decide +kernel)
+          (.both_eq (n := i "1") (x := coalesce (i "1") Node.null) (a₂ := exMerged) (by decide +kernel)
+            (.other (by decide) (by decide)) (by decide +kernel) (.nil_eq rfl)))
 
 end Ytk.C06
